@@ -220,7 +220,113 @@ def r3(ctx):
     ctx.floor("C06.R3", 6)
 
 
+def eval_txmgr(f, fn, state, old=False, commit_ok=True, closure_ok=True):
+    """one of Store::{flush, snapshot, snapshot_owned, tables, modify} evaluated (K6') on the state of the shared
+    transaction: returns (rendered result, final CurrentTransaction, effect log)"""
+    from . import feval as E
+    CT = "store::fs::CurrentTransaction"
+    log = []
+
+    def oracle(kind, name, payload, site):
+        if kind == "cmp":
+            a, b2 = str(name), str(payload)
+            if "elapsed" in a + b2:
+                o = 1 if old else -1
+                return o if "elapsed" in a else -o
+            return None
+        if kind != "call":
+            return None
+        t, args, it = payload
+        names = [it.tokname(a) for a in args]
+        if callee_matches(t, r"store::fs::tables::TransactionAndTables::commit$") or (name == "commit" and names and names[0].startswith("wtx")):
+            log.append("commit(%s)" % names[0])
+            return E.Ok(E.UNIT) if commit_ok else E.Err(E.Tok("commit-error"))
+        if name == "begin_write":
+            log.append("begin_write")
+            return E.Ok(E.Tok("tx-w"))
+        if name == "begin_read":
+            log.append("begin_read")
+            return E.Ok(E.Tok("tx-r"))
+        if name in ("set_durability", "set_two_phase_commit", "set_quick_repair"):
+            log.append(name)
+            return E.UNIT
+        if callee_matches(t, r"store::fs::tables::TransactionAndTables::new$"):
+            return E.Ok(E.Tok("wtx-new(%s)" % names[0]))
+        if callee_matches(t, r"store::fs::tables::ReadOnlyTables::new$"):
+            return E.Ok(E.Tok("rtx-new(%s)" % names[0]))
+        if name == "elapsed":
+            return E.Tok("elapsed(%s)" % names[0])
+        if callee_matches(t, r"TransactionAndTables::(tables|with_tables_mut)$"):
+            if name == "with_tables_mut":
+                log.append("closure-runs-in(%s)" % names[0])
+                return E.Ok(E.Tok("closure-result")) if closure_ok else E.Err(E.Tok("closure-error"))
+            return E.Tok("tables-of(%s)" % names[0])
+        if name in ("call_once", "call", "call_mut") and names and names[0] == "f":
+            log.append("closure-runs")
+            return E.Ok(E.Tok("closure-result")) if closure_ok else E.Err(E.Tok("closure-error"))
+        return None
+    st = {"None": E.variant(f, CT, "None"), "Read": E.variant(f, CT, "Read", E.Tok("rtx")), "Write": E.variant(f, CT, "Write", E.Tok("wtx"))}[state]
+    heap = {"self": E.struct(f, "store::fs::Store", db=E.Tok("db"), transaction=st, open_replicas=E.Tok("open"), pubkeys=E.Tok("pk"))}
+    args = [E.href("self")] + ([E.Tok("f")] if fn == "modify" else [])
+    try:
+        ret, it = E.run_it(f, "store::fs::Store::" + fn, args, heap, oracle)
+        fin = E.describe(E.field(f, it.heap["self"], "store::fs::Store", "transaction"), f)
+        r = E.describe(it.resolve(ret), f)
+        return ("PANIC" if (ret is not None and ret[0] == "diverge") else r), fin, log
+    except E.Unsupported as e:
+        return "UNSUPPORTED-FORM: %s" % e, None, log
+
+
+def r4(ctx):
+    """the shared-transaction manager as a transition table (K6'): which state of the open transaction leads to which
+    redb calls, and what is left open afterwards"""
+    f = ctx.facts
+    NEW_W, NEW_R = "wtx-new(tx-w)", "rtx-new(tx-r)"
+    spec = {
+        # (fn, state, old, commit_ok): (result prefix, final state, effects)
+        ("flush", "None", False, True): ("Ok(())", "None", []),
+        ("flush", "Read", False, True): ("Ok(())", "None", []),
+        ("flush", "Write", False, True): ("Ok(())", "None", ["commit(wtx)"]),
+        ("flush", "Write", False, False): ("Err(", None, ["commit(wtx)"]),
+        ("snapshot", "None", False, True): ("Ok(%s)" % NEW_R, "Read(%s)" % NEW_R, ["begin_read"]),
+        ("snapshot", "Read", False, True): ("Ok(rtx)", "Read(rtx)", []),
+        ("snapshot", "Write", False, True): ("Ok(%s)" % NEW_R, "Read(%s)" % NEW_R, ["commit(wtx)", "begin_read"]),
+        ("snapshot", "Write", False, False): ("Err(", None, ["commit(wtx)"]),
+        ("snapshot_owned", "None", False, True): ("Ok(%s)" % NEW_R, "None", ["begin_read"]),
+        ("snapshot_owned", "Read", False, True): ("Ok(%s)" % NEW_R, "None", ["begin_read"]),
+        ("snapshot_owned", "Write", False, True): ("Ok(%s)" % NEW_R, "None", ["commit(wtx)", "begin_read"]),
+        ("snapshot_owned", "Write", False, False): ("Err(", None, ["commit(wtx)"]),
+    }
+    for fn, run_f in (("tables", False), ("modify", True)):
+        tail_new = ["closure-runs-in(%s)" % NEW_W] if run_f else []
+        tail_old = ["closure-runs-in(wtx)"] if run_f else []
+        res_new = "Ok(closure-result)" if run_f else "Ok(tables-of(%s))" % NEW_W
+        res_old = "Ok(closure-result)" if run_f else "Ok(tables-of(wtx))"
+        spec[(fn, "None", False, True)] = (res_new, "Write(%s)" % NEW_W, ["begin_write"] + tail_new)
+        spec[(fn, "Read", False, True)] = (res_new, "Write(%s)" % NEW_W, ["begin_write"] + tail_new)
+        spec[(fn, "Write", False, True)] = (res_old, "Write(wtx)", tail_old)
+        spec[(fn, "Write", True, True)] = (res_new, "Write(%s)" % NEW_W, ["commit(wtx)", "begin_write"] + tail_new)
+        spec[(fn, "Write", True, False)] = ("Err(", None, ["commit(wtx)"])
+    for (fn, state, old, cok), (wres, wfin, wlog) in spec.items():
+        b = f.body("store::fs::Store::" + fn)
+        ctx.touch(*f.scope(b.path, prefix="store::fs::Store::"))
+        got, fin, log = eval_txmgr(f, fn, state, old, cok)
+        ok = got.startswith(wres) and (wfin is None or fin == wfin) and log == wlog
+        ctx.check(ok, "C06.R4", b.path, "tx[%s%s%s]" % (state, ",older-than-MAX_COMMIT_DELAY" if old else "", ",commit-fails" if not cok else ""),
+                  "returns %s, leaves %s open, redb calls %s; spec: %s, %s, %s (an open write transaction is committed - never dropped - before it is replaced; a failed commit is reported; "
+                  "a young write transaction is reused so that one operation's writes stay together)" % (got, fin, log, wres, wfin, wlog), b.sp)
+    # a failing transaction body is reported, and the shared transaction stays open: what earlier operations wrote into it
+    # is neither committed on the spot nor rolled back
+    mb = f.body("store::fs::Store::modify")
+    for state, want_fin, want_log in (("None", "Write(%s)" % NEW_W, ["begin_write", "closure-runs-in(%s)" % NEW_W]), ("Write", "Write(wtx)", ["closure-runs-in(wtx)"])):
+        got, fin, log = eval_txmgr(f, "modify", state, False, True, closure_ok=False)
+        ctx.check(got.startswith("Err(") and fin == want_fin and log == want_log, "C06.R4", mb.path, "tx[%s,transaction-body-fails]" % state,
+                  "returns %s, leaves %s open, redb calls %s; spec: Err, %s, %s (the error of one operation must not drop the writes of earlier, acknowledged operations)" % (got, fin, log, want_fin, want_log), mb.sp)
+    ctx.floor("C06.R4", 24)
+
+
 def run(ctx):
+    ctx.run_rule("C06.R4", r4)
     ctx.run_rule("C06.R1", r1)
     ctx.run_rule("C06.R2", r2)
     ctx.run_rule("C06.R3", r3)
